@@ -307,3 +307,33 @@ def std_patches(*modules, builtins=("int", "len", "min", "max", "ord", "range"))
         if hasattr(m, "byte_mask"):
             out.append((m, "byte_mask", byte_mask_shim))
     return out
+
+
+class SymKeyDict(dict):
+    """dict whose lookups accept symbolic keys: compares against every stored key (forks per key)
+    instead of hashing in C"""
+
+    def _find(self, k):
+        if not is_sym(k):
+            return k if dict.__contains__(self, k) else _MISSING
+        for kk in dict.keys(self):
+            r = (kk == k)
+            if r is True or (r is not False and _bi.bool(r)):
+                return kk
+        return _MISSING
+
+    def get(self, k, default=None):
+        kk = self._find(k)
+        return default if kk is _MISSING else dict.__getitem__(self, kk)
+
+    def __getitem__(self, k):
+        kk = self._find(k)
+        if kk is _MISSING:
+            raise KeyError(k)
+        return dict.__getitem__(self, kk)
+
+    def __contains__(self, k):
+        return self._find(k) is not _MISSING
+
+
+_MISSING = object()
